@@ -32,10 +32,11 @@ def deser_roots(C):
 
 def rule_panic(F, R, rule="R14-panic", restrict=None, floor_roots=30):
     with open(SPEC) as f:
-        allowed = {(a["function"], a["kind"]): a["reason"] for a in json.load(f)["allowed"]}
+        allowed0 = {(a["function"], a["kind"]): a for a in json.load(f)["allowed"]}
     total_reach = 0
     for C in (F.engine, F.ffi, F.wasm):
         roots, hand = deser_roots(C)
+        allowed = {(canon_fn(C, fn_), k_): v_ for (fn_, k_), v_ in allowed0.items()}
         if C is F.engine:
             R.floor(rule, "deserializer entry points (engine)", len(roots), floor_roots)
             R.analysed["handwritten_deserializer_impls"] = hand
@@ -44,25 +45,32 @@ def rule_panic(F, R, rule="R14-panic", restrict=None, floor_roots=30):
         G = CallGraph(C)
         seen = G.reach(roots)
         total_reach += len(seen)
-        present = set()
+        present = {}
         for dp in seen:
             m = C.mir_by_dp.get(dp)
             if m:
                 for kind, where, callee in panic_sites(m):
-                    present.add((norm(m["path"]), kind))
+                    present.setdefault((canon_fn(C, norm(m["path"])), kind), set()).add(where)
+        if os.environ.get("VERIF_DUMP_PANIC_COUNTS") and rule == "R14-panic":
+            print("PANIC-COUNTS deser_panics " + json.dumps({"%s|%s" % k_: len(v_) for k_, v_ in present.items()}))
+        verdicts = judge_panic_sites(C, allowed, present)
         for dp in seen:
             m = C.mir_by_dp.get(dp)
             if not m:
                 continue
-            fn = norm(m["path"])
+            fn = canon_fn(C, norm(m["path"]))
             if restrict and not restrict(G.path_to(seen, dp)):
                 continue
             for kind, where, callee in panic_sites(m):
                 label = "%s site" % kind
-                if (fn, kind) in allowed:
-                    R.ok(rule, fn, label, "reviewed: " + allowed[(fn, kind)], where)
-                elif moved_panic_reason(C, fn, kind, set(allowed), present):
-                    R.ok(rule, fn, label + " (moved)", moved_panic_reason(C, fn, kind, set(allowed), present), where)
+                st_, why_ = verdicts.get((fn, kind), ("new", ""))
+                if st_ == "ok":
+                    R.ok(rule, fn, label, "reviewed: " + allowed[(fn, kind)]["reason"], where)
+                elif st_ == "moved":
+                    R.ok(rule, fn, label + " (moved)", why_, where)
+                elif st_ == "grown":
+                    R.violation(rule, fn, label + " (more than reviewed)", "%s: a new explicit panic appeared in a reviewed deserializer "
+                                "function (spec/deser_panics.json)" % why_, where)
                 else:
                     path = G.path_to(seen, dp)
                     R.violation(rule, fn, label,
